@@ -173,8 +173,7 @@ TxData(e, s, pos, plen, now) ==
              fl == e.flight - (IF g.counted THEN g.len ELSE 0) + plen
          IN  [e EXCEPT !.segs = Put(@, s, g2), !.flight = fl,
                        \* a split probe was the newest segment: the stream continues after the shorter one
-                       !.nextOff = IF split /\ Nx(s, 1) = e.nxt THEN g.off + plen ELSE @,
-                       !.rtxBase = IF e.flight = 0 /\ ~FinUnacked(e) THEN now ELSE @]
+                       !.nextOff = IF split /\ Nx(s, 1) = e.nxt THEN g.off + plen ELSE @]
     ELSE [e EXCEPT !.segs = Put(@, s, Seg(pos, plen, now)),
                    !.flight = @ + plen,
                    !.nxt = Nx(s, 1),
@@ -339,12 +338,15 @@ R_C04_ConsumeExact(e, s, n, bytes, plen) ==
     /\ n = 1 + ContigAfter(e, s)
     /\ bytes = plen + ContigBytes(e, s, n - 1)
 R_C04_OutOfOrderIsAhead(e, s) == D(s, Nx(e.rnxt, 1)) > 0 /\ s \notin DOMAIN e.held
-R_C04_DuplicateIsOld(e, s) == D(s, e.rnxt) <= 0
+\* (what matters is that no packet the receiver could store is thrown away as a duplicate; a packet far
+\*  beyond any window it can hold is dropped either way)
+Slots(e) == Min((e.cfg.rx_buf \div e.cfg.mss0) + 1, 32767)
+R_C04_DuplicateIsOld(e, s) == ~(D(s, e.rnxt) > 0 /\ D(s, e.rnxt) <= Slots(e))
 R_C04_AlreadyPresentIsHeld(e, s) == s \in DOMAIN e.held
 \* "a sender that respects it can never overflow the receiver and its data stays within the configured buffer size"
 \* (rightEdge: the largest stream position any advertised window has allowed so far)
 InsideAdvertised(e) == e.consumed + HeldBytes(e) <= e.rightEdge
-R_C04_WithinBuffer(e) == InsideAdvertised(e) => Stored(e) <= e.cfg.rx_buf
+R_C04_WithinBuffer(e) == InsideAdvertised(e) => Stored(e) <= e.cfg.rx_buf + ReaderSlack(e)
 
 (* C07 triggers are set here: the effect of storing / declining a packet on the ACK obligations *)
 AckTrig(e, bytes, imm, now, line) ==
@@ -368,7 +370,8 @@ DispDuplicate(e, now, line) == AckTrig(e, 0, TRUE, now, line)
 DispFinAccepted(e, s, now, line) ==
     LET e1 == [e EXCEPT !.rnxt = s, !.peerFin = s,
                         \* C17 "answered with the endpoint's own FIN" once its data is out
-                        !.finAnsDue = IF e.fin.seq < 0 /\ e.nextOff = e.wr THEN line ELSE 0]
+                        \* (strictest precondition: everything written was transmitted and acknowledged)
+                        !.finAnsDue = IF e.fin.seq < 0 /\ e.nextOff = e.wr /\ ~Outstanding(e) THEN line ELSE 0]
     IN  AckTrig(e1, 0, TRUE, now, line)
 
 \* every emitted packet carries the current ack_nr and window: it discharges the ACK obligations
